@@ -578,3 +578,73 @@ Proof.
   intros H. simpl. apply le_n_S.
   induction l as [|d r IH]; [destruct H|]. simpl. destruct H as [->|H]; [lia | specialize (IH H); lia].
 Qed.
+
+(* ---------------- the parent of an entity; memory effect of a completed removal ---------------- *)
+Definition kd_attrs (e : key) (a : attrs) : attrs :=
+  match fst e with KD => with_pgs a (scrub e (apgs a)) | _ => a end.
+
+Lemma kd_scrub_attrs e a : kd_scrub e (apgs a) = apgs (kd_attrs e a).
+Proof. unfold kd_scrub, kd_attrs. destruct (fst e); reflexivity. Qed.
+
+Lemma find_hole_row x t k a l : find x t = Some (Node k a l) -> In (k, a, map tkey l) (rows t).
+Proof.
+  intros H. apply find_ctx in H. destruct H as [C ->]. apply rows_plug_in. left. rewrite rows_eq. left. reflexivity.
+Qed.
+
+Lemma parent_of_some e t p a l c : In p (keys_of t) -> find p t = Some (Node p a l) -> In c l -> tkey c = e ->
+  parent_of e t <> None.
+Proof.
+  intros Hp Hf Hc Hk. subst e. unfold parent_of. revert Hp. generalize (keys_of t) as fuel.
+  induction fuel as [|y r IH]; intros Hp; [destruct Hp|].
+  destruct (find y t) as [[k0 a0 l0]|] eqn:F.
+  - destruct (existsb (fun c0 => key_eqb (tkey c) (tkey c0)) l0) eqn:Ex; [discriminate|].
+    destruct Hp as [->|Hp]; [|apply IH; exact Hp].
+    exfalso. rewrite Hf in F. inversion F; subst.
+    assert (Ht : existsb (fun c0 => key_eqb (tkey c) (tkey c0)) l0 = true).
+    { apply existsb_exists. exists c. split; [exact Hc | apply key_eqb_refl]. }
+    congruence.
+  - destruct Hp as [->|Hp]; [congruence | apply IH; exact Hp].
+Qed.
+
+Lemma parent_of_plug C p a l1 te l2 : NoDup (keys_of (plug C (Node p a (l1 ++ te :: l2)))) ->
+  parent_of (tkey te) (plug C (Node p a (l1 ++ te :: l2))) = Some p.
+Proof.
+  intros H.
+  assert (Hfp : find p (plug C (Node p a (l1 ++ te :: l2))) = Some (Node p a (l1 ++ te :: l2))).
+  { rewrite find_plug; [apply (find_self (Node p a (l1 ++ te :: l2))) | exact H | left; reflexivity]. }
+  pose proof (proj1 (keys_plug_nodup _ _) H) as [N1 [N2 N3]].
+  pose proof (nodup_hole _ _ _ _ _ N1) as [Hte [Hpte Hd]].
+  destruct (parent_of (tkey te) (plug C (Node p a (l1 ++ te :: l2)))) as [p'|] eqn:E.
+  - f_equal. apply parent_of_spec in E. destruct E as [a' [l' [Hf [c [Hc Hk]]]]].
+    pose proof (find_hole_row _ _ _ _ _ Hf) as Hr.
+    change (plug C (Node p a (l1 ++ te :: l2))) with (plug ((p, a, l1, l2) :: C) te) in Hr.
+    apply rows_plug_in in Hr.
+    assert (Hx : In (tkey te) (rkids (p', a', map tkey l'))).
+    { unfold rkids. simpl. rewrite <- Hk. apply in_map. exact Hc. }
+    destruct Hr as [Hr|Hr].
+    + exfalso. pose proof (rows_kids_strict te _ _ Hr Hx) as Hs.
+      destruct te as [k0 a0 l0]. simpl in Hs. rewrite keys_of_eq in Hte. inversion Hte. contradiction.
+    + simpl in Hr. destruct Hr as [Hr|Hr]; [inversion Hr; reflexivity|]. exfalso.
+      rewrite !in_app_iff in Hr. destruct Hr as [Hr|[Hr|Hr]].
+      * apply (proj1 (Hd (tkey te) (tkey_in_keys te))). eapply rows_list_kids; eassumption.
+      * apply (proj2 (Hd (tkey te) (tkey_in_keys te))). eapply rows_list_kids; eassumption.
+      * destruct (ctx_rows_kids _ _ _ _ Hr Hx) as [Ep|Hin].
+        -- apply Hpte. rewrite <- Ep. apply tkey_in_keys.
+        -- apply (N3 (tkey te)); [|exact Hin]. rewrite keys_of_eq, flat_map_app. simpl. right. apply in_or_app. right.
+           apply in_or_app. left. apply tkey_in_keys.
+  - exfalso. eapply parent_of_some; [| exact Hfp | | reflexivity | exact E].
+    + apply keys_plug_in. left. left. reflexivity.
+    + apply in_or_app. right. left. reflexivity.
+Qed.
+
+Lemma nodup_plug_attrs C p a a' L : NoDup (keys_of (plug C (Node p a L))) -> NoDup (keys_of (plug C (Node p a' L))).
+Proof. intros H. apply keys_plug_nodup in H. apply keys_plug_nodup. exact H. Qed.
+
+Lemma forget_hole C p a l1 te l2 : NoDup (keys_of (plug C (Node p a (l1 ++ te :: l2)))) ->
+  forget (tkey te) (plug C (Node p a (l1 ++ te :: l2))) = plug C (Node p (kd_attrs (tkey te) a) (l1 ++ l2)).
+Proof.
+  intros H. unfold forget. rewrite parent_of_plug by exact H. unfold kd_attrs. destruct (fst (tkey te)).
+  - apply prune_hole. exact H.
+  - apply prune_hole. exact H.
+  - rewrite upd_hole by exact H. simpl. apply prune_hole. eapply nodup_plug_attrs. exact H.
+Qed.
